@@ -367,7 +367,17 @@ func (in *Interp) strTrimSpace(s *Str) *Str {
 }
 
 func (in *Interp) strTrimFunc(s *Str, pred func(*sym.Term) *sym.Term, what string) *Str {
+	return in.strTrimSides(s, pred, what, true, true)
+}
+
+// strTrimSides: strings.Trim / TrimLeft / TrimRight for a byte predicate (ASCII cutsets)
+func (in *Interp) strTrimSides(s *Str, pred0 func(*sym.Term) *sym.Term, what string, left, right bool) *Str {
 	st := in.St
+	never := func(*sym.Term) *sym.Term { return st.False }
+	pred := pred0
+	if !left {
+		pred = never
+	}
 	if s.kind == sAtom {
 		in.fail("%s of atom", what)
 	}
@@ -383,6 +393,10 @@ func (in *Interp) strTrimFunc(s *Str, pred func(*sym.Term) *sym.Term, what strin
 		L = st.Ite(st.And(st.Lt(ii, v.length), pred(v.at(ii))), L, st.Ite(st.Lt(ii, v.length), ii, v.length))
 	}
 	lead = L
+	pred = pred0
+	if !right {
+		pred = never
+	}
 	// end = smallest e >= lead such that all bytes in [e,len) satisfy pred
 	// E(j) for j = n..0: if j > len: E(j-1); else if j > lead && pred(at(j-1)): E(j-1) else j
 	E := st.Int(0)
